@@ -3,7 +3,15 @@
 import json, os
 ROOT = os.path.dirname(os.path.dirname(os.path.abspath(__file__)))
 TECH = "bounded symbolic execution of go/ssa + SMT (z3; cvc5 cross-check in thorough), native replay of counterexamples"
+TECHS = {"C17": "symbolic interpreter over go/ssa with decision enumeration (regexp evaluated by host on concrete strings; SMT only for braceIndices), native replay",
+ "C14": "context-bounded symbolic execution of go/ssa (interleavings as solver-visible decisions) + SMT, schedule-forced native replay",
+ "C16": "context-bounded symbolic execution of go/ssa (interleavings as decisions) + SMT, schedule-forced native replay",
+ "C11": "context-bounded symbolic execution of go/ssa (interleavings as decisions) + SMT, schedule-forced native replay",
+ "C03": "context-bounded symbolic execution of go/ssa (interleavings as decisions) + SMT, schedule-forced native replay",
+ "C12": "bounded symbolic execution of go/ssa with ghost ownership state + SMT, instrumented native replay"}
 claimed = {
+ "C17": dict(level="Partial claim. The router's dispatch logic (Match/ServeCOAP/Handle/HandleRemove/DefaultHandle/Use, newRouteRegexp, extractVars) is executed by the symbolic interpreter for every decided route set, request path and map iteration order within the listed sets against an independent segment matcher; braceIndices is decided over all symbolic strings up to the bound. The regular-expression engine is not encoded: it is evaluated by the host on concrete strings, so route patterns and paths are enumerated, not symbolic.",
+             note="Not decided: that compiled regexps denote exactly the pattern language in general (QuoteMeta, anchoring, arbitrary {var:re}); data races under concurrent registration/dispatch. Trusted: gosym encoder (native witnesses), host regexp.", ref="DESIGN.md §4 C17"),
  "C12": dict(level="Bounded symbolic model checking with engine ghost state per pooled message (released from the return of ReleaseMessage until AcquireMessage hands it out again): double release, any method call on a released message from outside the pool, and a held response/request/hijacked request found released or changed are violations; explored on the real connection for held responses, handler-held and hijacked requests, the retransmission-vs-acknowledgement race (2 threads) and the response writer.",
              note="Trusted: gosym encoder/scheduler; the same ghost rules are instrumented into the native build for replay. LIFO model of sync.Pool. TCP, block-wise error paths and application goroutines outside.", ref="DESIGN.md §4 C12"),
  "C03": dict(level="Context-bounded symbolic model checking of the real udp/client.Conn (Do/doInternal, writeMessage, Process, handleSpecialMessages, reader loop, handleReq/handle, token and message-ID tables, limiter, coder, pool) over an in-memory session with two concurrent callers and a peer that answers in every decided order/style/multiplicity with symbolic content: each successful call returns its own token and the content produced for it, no response object reaches two callers, a second request with an outstanding token is rejected without displacing the first.",
@@ -58,7 +66,7 @@ for pid in props:
             "engine": "gosym",
             "level_claimed": {"category": "model_checking", "text": c["level"], "design_ref": c["ref"]},
             "level_note": c["note"],
-            "technique": TECH,
+            "technique": TECHS.get(pid, TECH),
         })
 na = []
 for pid in props:
